@@ -50,3 +50,12 @@ Theorem C17_report_maxima : forall l, Forall (fun kv => 0 <= snd kv)%Q l ->
     (forall k mv, In (k, mv) (group_max l) -> (forall v, In (k, v) l -> v <= mv)%Q /\ exists v, In (k, v) l /\ (v == mv)%Q).
 Proof. exact group_max_spec. Qed.
 Print Assumptions C17_report_maxima.
+
+(* the CSV and the printed listing group the clashes by chain pair and, inside it, by residue pair: for any two grouping keys
+   the grouped listing is a rearrangement of the clash list - every clash once, nothing added *)
+From Coq Require Import Permutation.
+From RV Require Import Proofs.C17Csv.
+Theorem C17_grouped_listing : forall (A : Type) (same_chains same_residues : A -> A -> bool) clashes,
+    Permutation (grouped_rows same_chains same_residues clashes) clashes.
+Proof. exact @grouped_rows_perm. Qed.
+Print Assumptions C17_grouped_listing.
